@@ -147,8 +147,24 @@ func c05Run(c *ev.Ctx) {
 			s.Ops = append(s.Ops, hx.Op{K: "group", Path: parent})
 			model[parent] = &c05Obj{Kind: "group", Attrs: attrModel{}}
 		}
-		for j := 0; j < 26; j++ {
+		// every second of those instead: 30-40 children with names of two or three bytes, so
+		// that the group's 32 symbol table entries run out before its name heap does (an entry
+		// accepted beyond them is decoded from whatever follows the node: seeded C05.r9)
+		nfill, short := 26, r.Bool()
+		if short {
+			nfill = r.Range(30, 40)
+			c.Count("files_with_group_filled_beyond_32_entries", 1)
+		}
+		for j := 0; j < nfill; j++ {
 			name := strings.Repeat("語", r.Range(3, 12)) + fmt.Sprint(j)
+			if short {
+				name = fmt.Sprintf("c%d", j)
+				if j%4 == 3 {
+					s.Ops = append(s.Ops, hx.Op{K: "group", Path: parent + "/" + name})
+					model[parent+"/"+name] = &c05Obj{Kind: "group", Attrs: attrModel{}}
+					continue
+				}
+			}
 			d := c01DS{Family: "numeric", Layout: "contiguous"}
 			v := hx.GenNumeric(r, "[]i16", 2, 2)
 			d.Op = hx.Op{K: "create_ds", Path: parent + "/" + name, DT: "i16", Dims: []uint64{2}, Data: &v}
@@ -581,7 +597,7 @@ func c05Run(c *ev.Ctx) {
 var C05 = &ev.Property{
 	ID:    "C05",
 	Level: "exploration",
-	Rule: "each case builds a file through the public API (superblock 0/2/3; 0-3 nested groups; 1-4 datasets from the C01 generator: all type families, contiguous/chunked/filtered, a third of the chunked numeric ones resizable with an unlimited maximum, a maximum equal to the extent or a little above it and then taken through 1-3 rounds of Resize + full Write; attribute bursts that take some objects into dense storage plus deletes; hard links; sometimes a dense group) and hands the bytes to an independent spec-based decoder: strict decode (every deviation = issue key), tolerant decode + extent invariants (in file, below the superblock end-of-file address, pairwise disjoint), and comparison of the decoded tree, shapes, datatypes, raw dataset bytes and attribute bytes with what the history wrote. " +
+	Rule: "each case builds a file through the public API (superblock 0/2/3; 0-3 nested groups; 1-4 datasets from the C01 generator: all type families, contiguous/chunked/filtered, a third of the chunked numeric ones resizable with an unlimited maximum, a maximum equal to the extent or a little above it and then taken through 1-3 rounds of Resize + full Write; attribute bursts that take some objects into dense storage plus deletes; hard links; sometimes a dense group; one file in eight fills a group or the root group to refusal, with 26 names of three bytes per character against the 256-byte name heap or with 30-40 names of two or three bytes against the 32 symbol table entries) and hands the bytes to an independent spec-based decoder: strict decode (every deviation = issue key), tolerant decode + extent invariants (in file, below the superblock end-of-file address, pairwise disjoint), and comparison of the decoded tree, shapes, datatypes, raw dataset bytes and attribute bytes with what the history wrote. " +
 		"distinct = (superblock, feature set, dataset/group counts, ops/5); every file is non-trivial.",
 	Assumptions: []string{
 		"the independent decoder (harness/zzverif/specdec) is the specification's stand-in: written from the format specification, sharing no code with the library, validated on the bundled reference corpus against h5dump output",
